@@ -41,7 +41,7 @@ MaybeNonMinimal(b) == \E i \in 1..(Len(b) - 1) : b[i] >= 128 /\ b[i + 1] = 0
 \* Frames built by the harness from labelled segments (valid encodings, legal spellings, catalogue edits that keep
 \* every field where it was) contain minimal var-ints by construction; for byte-level mutations and edits that
 \* re-interpret the body (another type nibble, another remaining length) the conservative byte-pair test decides.
-Reinterpreting == {"mutation", "hdr_type", "rl_short", "rl_long", "varint5"}
+Reinterpreting == {"mutation", "hdr_type", "rl_short", "rl_long", "rl_zero", "varint5"}
 InQuantifier(e) == CompleteFrame(e.bytes) /\ (e.origin \in Reinterpreting => ~MaybeNonMinimal(e.bytes))
 OK04(e) ==
     InQuantifier(e) =>
@@ -103,7 +103,7 @@ OK20(e) ==
             \* (if the grammar's own first error is not the one the catalogue documents for m, the catalogue entry
             \* is ambiguous at this site: that is a defect of the catalogue, not of the library -- reported as a
             \* note and counted by bin/check, never as a violation; implementation = grammar is still enforced)
-            /\ (e.m \in {"rl_short", "rl_long"} \/ s.e \in Documented(e.m)
+            /\ (e.m \in {"rl_short", "rl_long", "rl_zero"} \/ s.e \in Documented(e.m)
                    \/ PrintT(<<"AMBIGUOUS", e.m, e.site, s.e>>))
             /\ SameErr(e.poll, s)
             /\ LenientMatches(e, q)
